@@ -1,4 +1,4 @@
-\* C41 quick: legacy density resolution, all (deep context, a, b, d) over sparse ratio tips without VRF output (chains of near ties s, s+1, s+2)
+\* C41 quick: legacy density resolution, all (deep context, a, b, d) over sparse ratio tips without VRF output
 CONSTANT MaxBN = 1
 CONSTANT MaxVRF <- NoVRF
 CONSTANT MaxSlot = 1
@@ -7,12 +7,12 @@ CONSTANT Windows = {0}
 CONSTANT DepthSet = "deep"
 CONSTANT TrimShallow = TRUE
 CONSTANT Arity = 3
-CONSTANT SampleMod = 5
+CONSTANT SampleMod = 2
 CONSTANT TipKind = "ratio"
 CONSTANT RBlocks = {1, 2}
 CONSTANT SpanBases = {1000000}
 CONSTANT SpanMults = {1, 2}
-CONSTANT SpanOffsets = {0, 1, 2}
+CONSTANT SpanOffsets = {0, 1}
 CONSTANT ResRoot = 31623
 INIT Init
 NEXT Next
